@@ -749,6 +749,9 @@ func handleZRANDMEMBER(params internal.HandlerFuncParams) ([]byte, error) {
 		if c != 0 {
 			count = c
 		}
+		if c == 0 {
+			count = 0
+		}
 	}
 
 	withscores := false
@@ -767,6 +770,10 @@ func handleZRANDMEMBER(params internal.HandlerFuncParams) ([]byte, error) {
 	set, ok := params.GetValues(params.Context, []string{key})[key].(*SortedSet)
 	if !ok {
 		return nil, fmt.Errorf("value at %s is not a sorted set", key)
+	}
+
+	if count == 0 {
+		return []byte("*0\r\n"), nil
 	}
 
 	members := set.GetRandom(count)
